@@ -113,6 +113,76 @@ SUPPORTED_SENSORS_ACC = ["accelerometer", "force", "torque", "actuatorfrc", "joi
                          "frameangacc", "touch", "tendonactuatorfrc"]
 GATE_SENSORS = ["jointlimitpos", "jointlimitfrc", "e_potential", "e_kinetic", "tendonlimitpos"]
 
+# prerequisites of wanted feature classes (gen_model(want=...))
+_WANT_NEEDS = {
+    "clampstack": ["gravcomp", "actgravcomp", "clamp:jnt_actfrcrange", "clamp:forcerange", "clamp:ctrlrange"],
+    "actgravcomp": ["gravcomp"],
+    "eq:tendon": ["tendon:fixed"], "eq:weldmocap": ["mocap"], "trn:tendon": ["tendon:fixed"], "trn:ball": ["jnt:ball"],
+    "wrap:pulley": ["tendon:spatial"], "wrap:sphere": ["tendon:spatial", "geom:sphere"],
+    "wrap:cylinder": ["tendon:spatial", "geom:cylinder"], "wrap:sidesite": ["tendon:spatial", "geom:sphere"],
+    "tendon:limit": ["tendon:fixed"], "tendon:frictionloss": ["tendon:fixed"],
+    "sensor:ballquat": ["jnt:ball"], "sensor:ballangvel": ["jnt:ball"],
+    "sensor:tendonpos": ["tendon:fixed"], "sensor:tendonvel": ["tendon:fixed"], "sensor:tendonactuatorfrc": ["tendon:fixed"],
+    "act:muscle": [], "act:intvelocity": [], "act:position": [],
+}
+_NEEDS_HINGE_SLIDE = ("clampstack", "tendon:fixed", "eq:joint", "eq:tendon", "trn:joint", "trn:jointinparent", "trn:tendon",
+                      "act:muscle", "act:intvelocity", "act:position", "tendon:limit", "tendon:frictionloss",
+                      "sensor:jointpos", "sensor:jointvel", "sensor:jointactuatorfrc", "sensor:tendonpos", "sensor:tendonvel",
+                      "sensor:tendonactuatorfrc", "limit", "frictionloss", "clamp:jnt_actfrcrange", "actgravcomp")
+_NEEDS_SITES = ("tendon:spatial", "trn:site", "sensor:velocimeter", "sensor:gyro", "sensor:accelerometer", "sensor:force",
+                "sensor:torque", "sensor:magnetometer", "sensor:touch")
+
+# feature classes of doc/mjx.rst "Feature Parity" (MJX-JAX column) and of the option/flag list that the generator can produce in
+# this sandbox (no HFIELD / MESH assets, no cameras/lights for CAMPROJECTION / RANGEFINDER); the quick tiers walk this agenda.
+FEATURE_GENERAL = (
+    ["jnt:free", "jnt:ball", "jnt:hinge", "jnt:slide", "geom:box", "geom:ellipsoid", "geom:cylinder", "limit", "frictionloss",
+     "tendon:fixed", "tendon:spatial", "wrap:pulley", "wrap:sphere", "wrap:cylinder", "wrap:sidesite", "tendon:limit",
+     "tendon:frictionloss", "eq:connect", "eq:weld", "eq:joint", "eq:tendon", "eq:inactive",
+     "act:motor", "act:position", "act:velocity", "act:damper", "act:intvelocity", "act:muscle", "act:general",
+     "trn:joint", "trn:jointinparent", "trn:ball", "trn:tendon", "trn:site", "dyn:integrator", "dyn:filter", "dyn:filterexact",
+     "actearly", "gain:affine", "bias:affine", "clamp:ctrlrange", "clamp:forcerange", "clamp:actrange",
+     "clamp:jnt_actfrcrange", "gravcomp", "actgravcomp", "clampstack", "clampstack", "fluid", "mocap", "solver:Newton",
+     "solver:CG", "jac:dense", "jac:sparse", "jac:auto", "sensor_cutoff", "eq:inactive", "clampstack"])
+FEATURE_CONTACT = ["plane", "margin", "pair", "exclude", "condim:1", "condim:3", "condim:4", "condim:6"]
+FEATURE_FLAGS = ["dsbl:" + f for f in ("gravity", "clampctrl", "eulerdamp", "spring", "damper", "limit", "equality", "frictionloss",
+                                        "actuation", "filterparent", "refsafe", "warmstart", "sensor", "contact")]
+
+
+def feature_classes(tags):
+    """normalise generator tags to the feature classes of FEATURE_GENERAL / FEATURE_CONTACT / feature_sensors()"""
+    out = set()
+    for t in tags:
+        if t.startswith("act:"):
+            out.add("act:" + t.split(":")[1])
+        elif t.startswith(("dsbl:", "int:", "cone:")) or t in PROFILES:
+            continue
+        else:
+            out.add(t)
+    return out
+
+
+def feature_sensors():
+    return ["sensor:" + k for k in SUPPORTED_SENSORS_POS + SUPPORTED_SENSORS_VEL + SUPPORTED_SENSORS_ACC]
+
+
+def feature_agenda(seed, ncases, contact_case, per_general=6, per_sensor=5):
+    """want-lists for `ncases` models: a rotation over all feature classes (offset by the seed) so that every class is forced
+    into at least one model of the tier; contact-only classes go to the cases for which contact_case(i) is true."""
+    gen, sen, flg, con = list(dict.fromkeys(FEATURE_GENERAL)) + ["clampstack"], feature_sensors(), FEATURE_FLAGS, FEATURE_CONTACT
+    out, ci = [], 0
+    for i in range(ncases):
+        wl = [gen[(seed * 7 + i * per_general + j) % len(gen)] for j in range(per_general)]
+        wl += [sen[(seed * 5 + i * per_sensor + j) % len(sen)] for j in range(per_sensor)]
+        wl.append(flg[(seed * 3 + i) % len(flg)])
+        if contact_case(i):
+            wl += [con[(seed + ci * 2 + j) % len(con)] for j in range(2)]
+            ci += 1
+        if i % 3 == 0 and "clampstack" not in wl:
+            wl.append("clampstack")        # the two-clamps-on-one-dof interaction is cheap and was missed once (seed C43-a)
+        out.append(wl)
+    return out
+
+
 PROFILES = {
     # p_* are probabilities; n_* ranges
     "smooth": dict(contact=False, plane=False, limits=0.0, friction=0.0, equality=0.0, gate=0.0, free=0.3),
@@ -124,18 +194,49 @@ PROFILES = {
 
 
 def gen_model(rng, profile="contact", nbody=None, integrator=None, sensors=True, tendons=True, actuators=True,
-              mocap=None, small=False, userdata=0, safe=False, cone=None):
-    """Return (xml, tags).  `tags` lists the features used (for distinct-case keys and triage)."""
+              mocap=None, small=False, userdata=0, safe=False, cone=None, want=()):
+    """Return (xml, tags).  `tags` lists the features used (for distinct-case keys and triage).
+    `want`: feature classes (see FEATURE_CLASSES) that this model MUST contain; the generator forces the corresponding
+    random decisions and their prerequisites (the quick tiers walk an agenda over all classes, see feature_agenda())."""
     P = PROFILES[profile]
     tags = [profile]
+    pending = set(want)
+    # prerequisites
+    for w_, needs in _WANT_NEEDS.items():
+        if w_ in pending:
+            pending |= set(needs)
+    allwant = frozenset(pending)
+
+    def w(t):            # wanted at all
+        return t in allwant
+
+    def take(t):         # wanted and not yet placed (force exactly once)
+        if t in pending:
+            pending.discard(t)
+            return True
+        return False
+    want_joints = [t for t in ("free", "ball", "hinge", "slide") if w("jnt:" + t)]
+    want_geoms = [t for t in ("box", "ellipsoid", "cylinder", "sphere", "capsule") if w("geom:" + t)]
+    need_hs = any(w(t) for t in _NEEDS_HINGE_SLIDE)
+    need_sites = 2 if any(w(t) for t in ("wrap:pulley", "wrap:sphere", "wrap:cylinder", "wrap:sidesite")) else \
+        (1 if any(w(t) for t in _NEEDS_SITES) else 0)
     nbody = int(nbody if nbody is not None else rng.integers(2, 4 if small else 6))
+    nbody = max(nbody, min(len(want_joints), 4), 2)
     integ = integrator or str(rng.choice(["Euler", "RK4", "implicitfast"], p=[0.45, 0.2, 0.35]))
+    if w("fluid") and integ == "implicitfast":
+        integ = "Euler"      # implicitfast + fluid is the documented gate
     cone_r = str(rng.choice(["pyramidal", "elliptic"]))
     cone = cone or cone_r
+    if w("condim:1"):
+        cone = "pyramidal"
     if safe and not P["contact"]:
         cone = "pyramidal"   # solver._update_constraint raises for elliptic cones without frictional contacts (finding)
     solver = str(rng.choice(["Newton", "CG"], p=[0.7, 0.3]))
+    solver = "CG" if w("solver:CG") else ("Newton" if w("solver:Newton") else solver)
     jac = str(rng.choice(["dense", "sparse", "auto"], p=[0.5, 0.3, 0.2]))
+    for j_ in ("dense", "sparse", "auto"):
+        if w("jac:" + j_):
+            jac = j_
     gate = None
     if rng.random() < P["gate"]:
         gate = str(rng.choice(["integrator_implicit", "solver_pgs", "sensor", "fluid_implicitfast", "cyl_box",
@@ -146,7 +247,7 @@ def gen_model(rng, profile="contact", nbody=None, integrator=None, sensors=True,
         integ = "implicit"
     if gate == "solver_pgs":
         solver = "PGS"
-    fluid = rng.random() < 0.25 and integ != "implicitfast"
+    fluid = (rng.random() < 0.25 or w("fluid")) and integ != "implicitfast"
     if gate == "fluid_implicitfast":
         integ, fluid = "implicitfast", True
     tags += ["int:" + integ, "cone:" + cone, "solver:" + solver, "jac:" + jac]
@@ -155,7 +256,7 @@ def gen_model(rng, profile="contact", nbody=None, integrator=None, sensors=True,
                     ("limit", 0.08), ("equality", 0.08), ("frictionloss", 0.08), ("actuation", 0.04),
                     ("filterparent", 0.15), ("refsafe", 0.15), ("warmstart", 0.2), ("sensor", 0.04),
                     ("contact", 0.06)):
-        if rng.random() < p:
+        if rng.random() < p or w("dsbl:" + flag):
             disable.append(flag)
     if rng.random() < 0.06:
         disable += [f for f in ("spring", "damper") if f not in disable]
@@ -182,7 +283,7 @@ def gen_model(rng, profile="contact", nbody=None, integrator=None, sensors=True,
          '<default><geom solref="%s" solimp="%s"/></default>'
          % (_f([rng.choice([0.02, 0.01, 0.05]), rng.choice([1, 0.7, 2])]), _f([0.9, 0.95, 0.001, 0.5, 2]))]
     W = ["<worldbody>"]
-    if P["plane"] and rng.random() < 0.8:
+    if P["plane"] and (rng.random() < 0.8 or w("plane")):
         tags.append("plane")
         W.append('<geom name="floor" type="plane" size="5 5 0.1" condim="%d" friction="%s"/>'
                  % (rng.choice([1, 3, 3, 4, 6]) if not (cone == "elliptic" and gate != "elliptic_condim1") else
@@ -196,7 +297,9 @@ def gen_model(rng, profile="contact", nbody=None, integrator=None, sensors=True,
         geom_types += ["ellipsoid"]
     if rng.random() < (0.15 if P["contact"] else 0.35):
         geom_types += ["cylinder"]
-    nmocap = int(mocap if mocap is not None else (rng.random() < 0.25))
+    nmocap = int(mocap if mocap is not None else (rng.random() < 0.25 or w("mocap")))
+    want_condim = [c_ for c_ in (1, 3, 4, 6) if w("condim:%d" % c_)]
+    stack = {"joint": None}    # clamp stack: gravcomp body x actuatorgravcomp joint x tight actuatorfrcrange x clamped actuator
     for k in range(nmocap):
         W.append('<body name="mocap%d" mocap="true" pos="%s" quat="%s"><site name="msite%d"/></body>'
                  % (k, _f(rng.uniform(-1, 1, 3) + [0, 0, 1]), _f(_quat(rng)), k))
@@ -208,6 +311,7 @@ def gen_model(rng, profile="contact", nbody=None, integrator=None, sensors=True,
         children[p].append(i)
     joints, hinge_slide, balls, sites, geoms = [], [], [], [], []
     bodyxml = {}
+    visited = [0]
 
     def body(i, depth):
         top = parent[i] < 0
@@ -218,11 +322,8 @@ def gen_model(rng, profile="contact", nbody=None, integrator=None, sensors=True,
             pos = rng.uniform(-0.3, 0.3, 3)
             if P["contact"]:
                 pos *= 0.6
-        s = ['<body name="b%d" pos="%s" quat="%s"%s>' % (i, _f(pos), _f(_quat(rng)),
-                                                         (' gravcomp="%s"' % _f(rng.uniform(0.2, 1.2)))
-                                                         if rng.random() < 0.15 else "")]
-        if "gravcomp" in s[0]:
-            tags.append("gravcomp")
+        visited[0] += 1
+        last = visited[0] == nbody
         r = rng.random()
         if top and r < P["free"]:
             jt = ["free"]
@@ -230,8 +331,21 @@ def gen_model(rng, profile="contact", nbody=None, integrator=None, sensors=True,
             jt = [str(rng.choice(["hinge", "slide", "ball", "hinge"]))]
             if rng.random() < 0.25:
                 jt.append("slide" if jt[0] == "ball" else str(rng.choice(["hinge", "slide"])))
-            if top and rng.random() < 0.12:
+            if top and rng.random() < 0.12 and not allwant:
                 jt = []  # welded to world
+        if want_joints and (want_joints[0] != "free" or top):
+            jt = [want_joints.pop(0)]          # forced joint type (free only on a top-level body)
+        elif want_joints and want_joints[0] == "free" and len(want_joints) > 1:
+            jt = [want_joints.pop(1)]
+        has_hs = any(t in ("hinge", "slide") for t in jt)
+        do_stack = w("clampstack") and stack["joint"] is None and (last or (has_hs and rng.random() < 0.6))
+        if ((do_stack and last) or (need_hs and last and not hinge_slide)) and not has_hs:
+            jt = [t for t in jt if t != "free"] + ["slide" if "ball" in jt else str(rng.choice(["hinge", "slide"]))]
+        s = ['<body name="b%d" pos="%s" quat="%s"%s>' % (i, _f(pos), _f(_quat(rng)),
+                                                         (' gravcomp="%s"' % _f(rng.uniform(0.2, 1.2)))
+                                                         if (rng.random() < 0.2 or do_stack or take("gravcomp")) else "")]
+        if "gravcomp" in s[0]:
+            tags.append("gravcomp")
         for t in jt:
             j = len(joints)
             name = "j%d" % j
@@ -247,10 +361,10 @@ def gen_model(rng, profile="contact", nbody=None, integrator=None, sensors=True,
                         a.append('springref="%s"' % _f(rng.uniform(-0.3, 0.3)))
                 if rng.random() < 0.4:
                     a.append('armature="%s"' % _f(rng.uniform(0.01, 0.3)))
-                if rng.random() < P["friction"]:
+                if rng.random() < P["friction"] or take("frictionloss"):
                     a.append('frictionloss="%s"' % _f(rng.uniform(0.05, 1)))
                     tags.append("frictionloss")
-                if rng.random() < P["limits"]:
+                if rng.random() < P["limits"] or take("limit"):
                     if t == "ball":
                         a.append('range="0 %s"' % _f(rng.uniform(0.05, 1.0)))
                     else:
@@ -258,12 +372,19 @@ def gen_model(rng, profile="contact", nbody=None, integrator=None, sensors=True,
                         a.append('range="%s %s"' % (_f(lo), _f(lo + rng.uniform(0.05, 1.2))))
                     if rng.random() < 0.3:
                         a.append('margin="%s"' % _f(rng.uniform(0.002, 0.02)))  # < half the range: one side at a time
-                    tags.append("limit:" + t)
-                if rng.random() < 0.1:
-                    a.append('actuatorfrcrange="%s %s"' % (_f(-rng.uniform(0.1, 2)), _f(rng.uniform(0.1, 2))))
-                    tags.append("actfrcrange")
-                if rng.random() < 0.15:
+                    tags.extend(["limit:" + t, "limit"])
+                stack_here = do_stack and stack["joint"] is None and t in ("hinge", "slide")
+                if stack_here:
+                    stack["joint"] = name
+                    tags.append("clampstack")
+                if stack_here or rng.random() < 0.2 or (t != "ball" and take("clamp:jnt_actfrcrange")):
+                    # tight enough to engage against gravity compensation / actuator forces of the generated sizes
+                    lim = rng.uniform(0.02, 0.5) if (stack_here or rng.random() < 0.6) else rng.uniform(0.5, 3)
+                    a.append('actuatorfrcrange="%s %s"' % (_f(-lim * rng.uniform(0.5, 1.5)), _f(lim * rng.uniform(0.5, 1.5))))
+                    tags.append("clamp:jnt_actfrcrange")
+                if stack_here or rng.random() < 0.2 or take("actgravcomp"):
                     a.append('actuatorgravcomp="true"')
+                    tags.append("actgravcomp")
             if t in ("hinge", "slide"):
                 a.append('axis="%s"' % _f(_quat(rng)[:3]))
                 hinge_slide.append(name)
@@ -278,6 +399,8 @@ def gen_model(rng, profile="contact", nbody=None, integrator=None, sensors=True,
             tags.append("inertial")
         for g in range(int(rng.integers(1, 3))):
             gt = str(rng.choice(geom_types))
+            if want_geoms and gate is None:
+                gt = want_geoms.pop(0)
             if gate == "cyl_box" and i == 0 and g == 0:
                 gt = "cylinder"
             if gate == "cyl_box" and i == 1 and g == 0:
@@ -297,9 +420,11 @@ def gen_model(rng, profile="contact", nbody=None, integrator=None, sensors=True,
                  'density="%s"' % _f(rng.uniform(300, 2000))]
             if P["contact"]:
                 cd = [1, 3, 3, 4, 6] if cone == "pyramidal" or gate == "elliptic_condim1" else [3, 3, 4, 6]
-                a.append('condim="%d"' % rng.choice(cd))
+                cdv = int(want_condim.pop(0) if want_condim and (cone == "pyramidal" or want_condim[0] != 1) else rng.choice(cd))
+                a.append('condim="%d"' % cdv)
+                tags.append("condim:%d" % cdv)
                 a.append('friction="%s"' % _f([rng.uniform(0.2, 1.5), rng.uniform(0.001, 0.01), rng.uniform(0.0001, 0.001)]))
-                if rng.random() < 0.25:
+                if rng.random() < 0.25 or take("margin"):
                     a.append('margin="%s"' % _f(rng.uniform(0.005, 0.05)))
                     if rng.random() < 0.5:
                         a.append('gap="%s"' % _f(rng.uniform(0.001, 0.004)))
@@ -313,7 +438,7 @@ def gen_model(rng, profile="contact", nbody=None, integrator=None, sensors=True,
             tags.append("geom:" + gt)
             geoms.append((name, gt, i))
             s.append("<geom %s/>" % " ".join(a))
-        for _ in range(int(rng.integers(0, 3))):
+        for _ in range(max(int(rng.integers(0, 3)), need_sites)):
             name = "s%d" % len(sites)
             sites.append((name, i))
             s.append('<site name="%s" pos="%s" quat="%s" size="0.01"/>' % (name, _f(rng.uniform(-0.15, 0.15, 3)),
@@ -332,31 +457,42 @@ def gen_model(rng, profile="contact", nbody=None, integrator=None, sensors=True,
     # tendons
     tend = []
     T = []
-    if tendons and hinge_slide and rng.random() < 0.5:
+    want_wrap = any(w(t) for t in ("wrap:pulley", "wrap:sphere", "wrap:cylinder", "wrap:sidesite"))
+    if tendons and hinge_slide and (rng.random() < 0.5 or w("tendon:fixed")):
         k = int(rng.integers(1, min(3, len(hinge_slide)) + 1))
         js = rng.choice(hinge_slide, size=k, replace=False)
-        a = _tendon_attrs(rng, P, tags)
+        a = _tendon_attrs(rng, P, tags, take)
         T.append("<fixed name=\"t%d\" %s>%s</fixed>" % (len(tend), a, "".join(
             '<joint joint="%s" coef="%s"/>' % (j, _f(rng.uniform(-2, 2))) for j in js)))
         tend.append("t%d" % len(tend))
         tags.append("tendon:fixed")
-    if tendons and len(sites) >= 2 and rng.random() < 0.5:
+    if tendons and len(sites) >= 2 and (rng.random() < 0.5 or w("tendon:spatial")):
         k = int(rng.integers(2, min(4, len(sites)) + 1))
+        if want_wrap:
+            k = min(4, len(sites)) if len(sites) >= 3 else 2
         idx = rng.choice(len(sites), size=k, replace=False)
         path = []
         for n, ii in enumerate(idx):
             path.append('<site site="%s"/>' % sites[ii][0])
-            if n == 1 and k >= 3 and rng.random() < 0.3:
+            if n == 1 and k >= 3 and (rng.random() < 0.3 or take("wrap:pulley")):
                 path.append('<pulley divisor="%s"/>' % _f(rng.choice([1, 2, 3])))
                 path.append('<site site="%s"/>' % sites[idx[1]][0])
                 tags.append("wrap:pulley")
-            elif n < k - 1 and rng.random() < 0.35:
+            elif n < k - 1 and (rng.random() < 0.35 or any(t in pending for t in ("wrap:sphere", "wrap:cylinder", "wrap:sidesite"))):
                 cand = [g for g in geoms if g[1] in ("sphere", "cylinder")]
+                for gt_ in ("cylinder", "sphere"):
+                    if ("wrap:" + gt_) in pending and [g for g in cand if g[1] == gt_]:
+                        cand = [g for g in cand if g[1] == gt_]
+                        break
                 if cand:
                     g = cand[int(rng.integers(len(cand)))]
+                    pending.discard("wrap:" + g[1])
                     ss = ""
                     same = [x for x in sites if x[1] == g[2]]
-                    if rng.random() < 0.4 and same and rng.random() < 0.9:
+                    if same and take("wrap:sidesite"):
+                        ss = ' sidesite="%s"' % same[int(rng.integers(len(same)))][0]
+                        tags.append("wrap:sidesite")
+                    elif rng.random() < 0.4 and same and rng.random() < 0.9:
                         ss = ' sidesite="%s"' % same[int(rng.integers(len(same)))][0]
                         tags.append("wrap:sidesite")
                     elif rng.random() < 0.04:
@@ -366,7 +502,7 @@ def gen_model(rng, profile="contact", nbody=None, integrator=None, sensors=True,
                             tags.append("wrap:sidesite-crossbody")
                     path.append('<geom geom="%s"%s/>' % (g[0], ss))
                     tags.append("wrap:" + g[1])
-        a = _tendon_attrs(rng, P, tags)
+        a = _tendon_attrs(rng, P, tags, take, armature=not any("<geom " in x for x in path))
         T.append('<spatial name="t%d" %s>%s</spatial>' % (len(tend), a, "".join(path)))
         tend.append("t%d" % len(tend))
         tags.append("tendon:spatial")
@@ -376,7 +512,30 @@ def gen_model(rng, profile="contact", nbody=None, integrator=None, sensors=True,
     A = []
     acts = []
     if actuators and (joints or tend):
-        for _ in range(int(rng.integers(1, 4))):
+        # forced actuator slots: (kind or None, transmission or None, dyn or None)
+        RESTRICTED = ("muscle", "intvelocity", "position")
+        wk = [k_ for k_ in ("muscle", "intvelocity", "position", "motor", "velocity", "damper", "general") if w("act:" + k_)]
+        wdyn = [d_ for d_ in ("integrator", "filter", "filterexact") if w("dyn:" + d_)]
+        for d_ in wdyn:        # every wanted dyn type rides on a general actuator
+            wk.append("general")
+        if (w("actearly") or w("gain:affine") or w("bias:affine") or w("clamp:actrange")) and "general" not in wk:
+            wk.append("general")
+        wt = [t_ for t_ in ("site", "ball", "tendon", "jointinparent", "joint") if w("trn:" + t_)]
+        slots = []
+        if stack["joint"]:
+            slots.append((str(rng.choice(["motor", "position", "general"])), "stack", None))
+        for k_ in wk:
+            if k_ in RESTRICTED:
+                ok_t = [x for x in wt if x in ("tendon", "jointinparent", "joint")]
+                if ok_t:
+                    wt.remove(ok_t[0])
+                slots.append((k_, ok_t[0] if ok_t else None, None))
+            else:
+                slots.append((k_, wt.pop(0) if wt else None, wdyn.pop(0) if (k_ == "general" and wdyn) else None))
+        slots += [(None, t_, None) for t_ in wt]
+        nact = max(int(rng.integers(1, 4)), len(slots))
+        for ai in range(nact):
+            fk, ft, fd = slots[ai] if ai < len(slots) else (None, None, None)
             kinds = []
             if hinge_slide:
                 kinds += ["joint", "joint", "jointinparent"]
@@ -389,7 +548,13 @@ def gen_model(rng, profile="contact", nbody=None, integrator=None, sensors=True,
             if not kinds:
                 break
             k = str(rng.choice(kinds))
-            trn = {"joint": lambda: 'joint="%s"' % rng.choice(hinge_slide),
+            if ft == "stack":
+                k = "joint"
+            elif ft is not None and ft in kinds:
+                k = ft
+            elif fk in RESTRICTED and k in ("ball", "site"):
+                k = str(rng.choice([x for x in kinds if x not in ("ball", "site")] or ["joint"]))
+            trn = {"joint": lambda: 'joint="%s"' % (stack["joint"] if ft == "stack" else rng.choice(hinge_slide)),
                    "jointinparent": lambda: 'jointinparent="%s"' % rng.choice(hinge_slide),
                    "ball": lambda: 'joint="%s"' % rng.choice(balls),
                    "tendon": lambda: 'tendon="%s"' % rng.choice(tend),
@@ -400,13 +565,20 @@ def gen_model(rng, profile="contact", nbody=None, integrator=None, sensors=True,
             name = "a%d" % len(acts)
             kind = str(rng.choice(["motor", "position", "velocity", "general", "general", "muscle", "intvelocity",
                                    "damper"]))
+            if fk is not None:
+                kind = fk
             if k in ("ball", "site") and kind in ("muscle", "intvelocity", "position"):
                 kind = "motor"
+            tags.append("trn:" + k)
             common = 'name="%s" %s %s' % (name, trn, gear)
-            if rng.random() < 0.5 and kind not in ("muscle", "damper", "intvelocity"):
+            if (rng.random() < 0.5 or ft == "stack" or take("clamp:ctrlrange")) and kind not in ("muscle", "damper", "intvelocity"):
                 common += ' ctrlrange="%s %s"' % (_f(-rng.uniform(0.2, 1)), _f(rng.uniform(0.2, 1)))
-            if rng.random() < 0.3 and kind != "muscle":
-                common += ' forcerange="%s %s"' % (_f(-rng.uniform(0.5, 5)), _f(rng.uniform(0.5, 5)))
+                tags.append("clamp:ctrlrange")
+            if (rng.random() < 0.3 or ft == "stack" or take("clamp:forcerange")) and kind != "muscle":
+                # half of them tight (engage for |ctrl| <= 1.5 and the generated gains), half wide
+                fr = rng.uniform(0.05, 0.6) if rng.random() < 0.5 else rng.uniform(0.5, 5)
+                common += ' forcerange="%s %s"' % (_f(-fr * rng.uniform(0.5, 1.5)), _f(fr * rng.uniform(0.5, 1.5)))
+                tags.append("clamp:forcerange")
             if kind == "motor":
                 A.append("<motor %s/>" % common)
             elif kind == "position":
@@ -418,8 +590,10 @@ def gen_model(rng, profile="contact", nbody=None, integrator=None, sensors=True,
             elif kind == "intvelocity":
                 A.append('<intvelocity %s kp="%s" actrange="%s %s"/>' % (common, _f(rng.uniform(1, 20)),
                                                                         _f(-rng.uniform(0.2, 1)), _f(rng.uniform(0.2, 1))))
+                tags += ["clamp:actrange", "dyn:integrator", "gain:fixed", "bias:affine"]
             elif kind == "muscle":
                 if k in ("joint", "jointinparent", "tendon"):
+                    tags += ["dyn:muscle", "gain:muscle", "bias:muscle"]
                     A.append('<muscle %s lengthrange="%s %s" force="%s" timeconst="%s %s" tausmooth="%s"/>'
                              % (common, _f(rng.uniform(-1, 0.0)), _f(rng.uniform(0.3, 1.5)), _f(rng.uniform(5, 50)),
                                 _f(rng.uniform(0.005, 0.05)), _f(rng.uniform(0.01, 0.08)), _f(rng.choice([0, 0.2]))))
@@ -428,12 +602,20 @@ def gen_model(rng, profile="contact", nbody=None, integrator=None, sensors=True,
                     kind = "motor"
             else:
                 dyn = str(rng.choice(["none", "integrator", "filter", "filterexact"]))
+                if fd is not None:
+                    dyn = fd
+                elif dyn == "none" and ("actearly" in pending or "clamp:actrange" in pending):
+                    dyn = str(rng.choice(["integrator", "filter", "filterexact"]))
+                gt_ = "affine" if take("gain:affine") else str(rng.choice(["fixed", "affine"]))
+                bt_ = "affine" if take("bias:affine") else str(rng.choice(["none", "affine"]))
                 extra = 'dyntype="%s" dynprm="%s" gaintype="%s" gainprm="%s" biastype="%s" biasprm="%s"' % (
-                    dyn, _f(rng.uniform(0.01, 0.5)), rng.choice(["fixed", "affine"]),
-                    _f(rng.uniform(-2, 2, 3)), rng.choice(["none", "affine"]), _f(rng.uniform(-2, 2, 3)))
-                if dyn != "none" and rng.random() < 0.5:
+                    dyn, _f(rng.uniform(0.01, 0.5)), gt_,
+                    _f(rng.uniform(-2, 2, 3)), bt_, _f(rng.uniform(-2, 2, 3)))
+                tags += ["dyn:" + dyn, "gain:" + gt_, "bias:" + bt_]
+                if dyn != "none" and (rng.random() < 0.5 or take("clamp:actrange")):
                     extra += ' actlimited="true" actrange="%s %s"' % (_f(-rng.uniform(0.1, 1)), _f(rng.uniform(0.1, 1)))
-                if dyn != "none" and rng.random() < 0.3:
+                    tags.append("clamp:actrange")
+                if dyn != "none" and (rng.random() < 0.3 or take("actearly")):
                     extra += ' actearly="true"'
                     tags.append("actearly")
                 A.append("<general %s %s/>" % (common, extra))
@@ -444,8 +626,9 @@ def gen_model(rng, profile="contact", nbody=None, integrator=None, sensors=True,
         X += ["<actuator>"] + A + ["</actuator>"]
     # equality
     E = []
-    if rng.random() < P["equality"]:
-        for _ in range(int(rng.integers(1, 3))):
+    weq = [k_ for k_ in ("connect", "weld", "joint", "tendon", "weldmocap") if w("eq:" + k_)]
+    if rng.random() < P["equality"] or weq or w("eq:inactive"):
+        for ei in range(max(int(rng.integers(1, 3)), len(weq), 2 if w("eq:inactive") else 0)):
             kinds = []
             if nbody >= 2:
                 kinds += ["connect", "weld"]
@@ -458,8 +641,16 @@ def gen_model(rng, profile="contact", nbody=None, integrator=None, sensors=True,
             if not kinds:
                 break
             k = str(rng.choice(kinds))
+            if weq and weq[0] in kinds:
+                k = weq.pop(0)
+            elif weq:
+                weq.pop(0)
             sol = 'solref="%s" solimp="%s"' % (_f([rng.choice([0.02, 0.05]), 1]), _f([0.9, 0.95, 0.001, 0.5, 2]))
-            act = "" if rng.random() < 0.85 else ' active="false"'
+            # inactive equalities make MuJoCo's compact constraint-row offsets (d.ne) differ from MJX's static ones (ne)
+            act = "" if (rng.random() < 0.75 and not (ei > 0 and take("eq:inactive"))) else ' active="false"'
+            if act:
+                tags.append("eq:inactive")
+                pending.discard("eq:inactive")
             if k == "connect":
                 b1, b2 = rng.choice(nbody, 2, replace=False)
                 two = ' body2="b%d"' % b2 if rng.random() < 0.6 else ""
@@ -487,14 +678,17 @@ def gen_model(rng, profile="contact", nbody=None, integrator=None, sensors=True,
     if E:
         X += ["<equality>"] + E + ["</equality>"]
     # exclusions / pairs
-    if P["contact"] and len(geoms) >= 2 and rng.random() < 0.3:
+    if P["contact"] and len(geoms) >= 2 and (rng.random() < 0.3 or w("pair")):
         g1, g2 = rng.choice(len(geoms), 2, replace=False)
+        if w("pair") and geoms[g1][2] == geoms[g2][2]:
+            other = [x for x in range(len(geoms)) if geoms[x][2] != geoms[g1][2]]
+            g2 = other[int(rng.integers(len(other)))] if other else g2
         if geoms[g1][2] != geoms[g2][2]:
             X.append('<contact><pair geom1="%s" geom2="%s" condim="%d" friction="%s"/></contact>'
                      % (geoms[g1][0], geoms[g2][0], rng.choice([3, 4, 6] if cone == "elliptic" else [1, 3, 4, 6]),
                         _f(rng.uniform(0.2, 1.2, 5) * [1, 1, 0.01, 0.001, 0.001])))
             tags.append("pair")
-    if P["contact"] and nbody >= 2 and rng.random() < 0.2:
+    if P["contact"] and nbody >= 2 and (rng.random() < 0.2 or w("exclude")):
         b1, b2 = rng.choice(nbody, 2, replace=False)
         X.append('<contact><exclude body1="b%d" body2="b%d"/></contact>' % (b1, b2))
         tags.append("exclude")
@@ -503,14 +697,15 @@ def gen_model(rng, profile="contact", nbody=None, integrator=None, sensors=True,
     if sensors:
         ns = int(rng.integers(2, 9))
         pool = SUPPORTED_SENSORS_POS + SUPPORTED_SENSORS_VEL + SUPPORTED_SENSORS_ACC
-        kinds = list(rng.choice(pool, size=ns))
+        kinds = list(rng.choice(pool, size=ns)) + [t[7:] for t in sorted(allwant) if t.startswith("sensor:")]
         if safe:
             kinds = [k for k in kinds if k != "touch"]   # sensor_acc raises for touch sensors without candidate contacts
         if gate == "sensor":
             kinds.append(str(rng.choice(GATE_SENSORS)))
         for k in kinds:
             k = str(k)
-            cut = ' cutoff="%s"' % _f(rng.uniform(0.05, 5)) if rng.random() < 0.15 else ""
+            nocut = k in ("framexaxis", "frameyaxis", "framezaxis", "framequat", "ballquat", "ballangvel", "clock")
+            cut = ' cutoff="%s"' % _f(rng.uniform(0.05, 5)) if (rng.random() < 0.15 or (not nocut and take("sensor_cutoff"))) else ""
             if k in ("framexaxis", "frameyaxis", "framezaxis", "framequat", "ballquat"):
                 cut = ""
             s = None
@@ -546,13 +741,15 @@ def gen_model(rng, profile="contact", nbody=None, integrator=None, sensors=True,
             if s:
                 S.append(s)
                 tags.append("sensor:" + k)
+                if cut and cut in s:
+                    tags.append("sensor_cutoff")
     if S:
         X += ["<sensor>"] + S + ["</sensor>"]
     X.append("</mujoco>")
     return "\n".join(X), sorted(set(tags))
 
 
-def _tendon_attrs(rng, P, tags):
+def _tendon_attrs(rng, P, tags, take=lambda t: False, armature=True):
     a = []
     if rng.random() < 0.5:
         a.append('stiffness="%s"' % _f(rng.uniform(1, 50)))
@@ -560,14 +757,14 @@ def _tendon_attrs(rng, P, tags):
             a.append('springlength="%s"' % _f(rng.uniform(0, 0.4)))
     if rng.random() < 0.5:
         a.append('damping="%s"' % _f(rng.uniform(0.1, 3)))
-    if rng.random() < P["friction"]:
+    if rng.random() < P["friction"] or take("tendon:frictionloss"):
         a.append('frictionloss="%s"' % _f(rng.uniform(0.05, 1)))
         tags.append("tendon:frictionloss")
-    if rng.random() < P["limits"]:
+    if rng.random() < P["limits"] or take("tendon:limit"):
         lo = rng.uniform(-0.5, 0.3)
         a.append('range="%s %s"' % (_f(lo), _f(lo + rng.uniform(0.05, 1.0))))
         tags.append("tendon:limit")
-    if rng.random() < 0.2:
+    if rng.random() < 0.2 and armature:     # the compiler rejects armature on a tendon that wraps a geom
         a.append('armature="%s"' % _f(rng.uniform(0.01, 0.2)))
         tags.append("tendon:armature")
     return " ".join(a)
@@ -699,8 +896,11 @@ def random_state(R, rng, m, d, scale=1.0, vel=1.0):
         d.mocap_pos[:] += rng.normal(size=(m.nmocap, 3)) * 0.2
         qq = rng.normal(size=(m.nmocap, 4))
         d.mocap_quat[:] = qq / np.linalg.norm(qq, axis=1, keepdims=True)
-    if m.neq and rng.random() < 0.3:
+    if m.neq and rng.random() < 0.5:
+        # run-time (de)activation: MuJoCo's compact row offsets (d.ne) then differ from MJX's static ones (ne)
         d.eq_active[:] = rng.integers(0, 2, m.neq)
+        if rng.random() < 0.5:
+            d.eq_active[int(rng.integers(m.neq))] = 0
     d.time = float(rng.uniform(0, 3))
     if m.nuserdata:
         d.userdata[:] = rng.normal(size=m.nuserdata)
